@@ -174,6 +174,10 @@ type Action struct {
 	// DocOfFieldTypes: ask Context.Doc about the named type of every field of the struct (whatever package
 	// it lives in, the way runtimedoc / partialstruct style generators do) and render what was answered
 	DocOfFieldTypes bool `json:"doc_of_field_types,omitempty"`
+	// DocOfFields: ask Context.Doc about every FIELD of the struct (as runtimedoc does) and render the answer
+	DocOfFields bool `json:"doc_of_fields,omitempty"`
+	// AskDocOfFieldTypes: like DocOfFieldTypes, but the answers are thrown away (nothing is rendered)
+	AskDocOfFieldTypes bool `json:"ask_doc_of_field_types,omitempty"`
 	// Recovered: text rendered through a template that ends in an unbound name: the render panics after it
 	// yielded this text, and the generator recovers from the panic and carries on (a legal thing to do)
 	Recovered string `json:"render_that_panics_and_is_recovered,omitempty"`
@@ -250,7 +254,10 @@ func (in *inst) perform(c gengo.Context, gen string, a Action, typ string) error
 		pkgName = p.Pkg().Name()
 	}
 	for i, imp := range a.Imports {
-		c.RenderT("var _"+fmt.Sprint(i)+"_"+typ+"_"+gen+" @x\n", snippet.Arg("x", snippet.PkgExpose(subst(imp, strings.ToLower(typ), gen, pkgName), "X")))
+		// (the call also binds an argument NO placeholder uses and which refers to a package of its own: a
+		// template renders what its format mentions, nothing else)
+		c.RenderT("var _"+fmt.Sprint(i)+"_"+typ+"_"+gen+" @x\n", snippet.Arg("x", snippet.PkgExpose(subst(imp, strings.ToLower(typ), gen, pkgName), "X")),
+			snippet.Arg("unusedArgument", snippet.PkgExpose("only.io/unused/argument", "X")))
 	}
 	if a.SharedExpose {
 		c.RenderT("var _s_"+typ+"_"+gen+" @x\nvar _t_"+typ+"_"+gen+" @y\n", snippet.Arg("x", sharedExposeLib), snippet.Arg("y", sharedExposeLocal))
@@ -386,7 +393,15 @@ func (in *inst) generate(gen string, c gengo.Context, named *types.Named) error 
 			c.Render(snippet.Block(fmt.Sprintf("const N_%s_%s = %d // seen=%d\n", typ, gen, in.counter, len(in.seen))))
 		}
 	}
-	if a.DocOfFieldTypes {
+	if a.DocOfFields {
+		if st, ok := named.Underlying().(*types.Struct); ok {
+			for i := 0; i < st.NumFields(); i++ {
+				_, doc := c.Doc(st.Field(i))
+				c.Render(snippet.Block(fmt.Sprintf("// %s.%s: field %s is documented by %q\n", pkg, typ, st.Field(i).Name(), doc)))
+			}
+		}
+	}
+	if a.DocOfFieldTypes || a.AskDocOfFieldTypes {
 		if st, ok := named.Underlying().(*types.Struct); ok {
 			for i := 0; i < st.NumFields(); i++ {
 				ft := st.Field(i).Type()
@@ -398,6 +413,9 @@ func (in *inst) generate(gen string, c gengo.Context, named *types.Named) error 
 					continue
 				}
 				tags, doc := c.Doc(fn.Obj())
+				if !a.DocOfFieldTypes {
+					continue
+				}
 				var ks []string
 				for k, v := range tags {
 					ks = append(ks, k+"="+strings.Join(v, ","))
@@ -585,6 +603,8 @@ type Spec struct {
 	Gens        []GenScript         `json:"gens"`
 	// Real names registered generators of the repository to append (runtimedoc, deepcopy, partialstruct, defaulter)
 	Real []string `json:"real,omitempty"`
+	// RealFirst lists the repository's generators BEFORE the scripted ones
+	RealFirst bool `json:"real_first,omitempty"`
 }
 
 type Outcome struct {
@@ -633,7 +653,11 @@ func Exec(spec Spec) (out Outcome) {
 	}
 	mu.Unlock()
 	if len(spec.Real) > 0 {
-		gens = append(gens, gengo.GetRegisteredGenerators(spec.Real...)...)
+		if spec.RealFirst {
+			gens = append(gengo.GetRegisteredGenerators(spec.Real...), gens...)
+		} else {
+			gens = append(gens, gengo.GetRegisteredGenerators(spec.Real...)...)
+		}
 	}
 
 	cwd, _ := os.Getwd()
